@@ -522,9 +522,9 @@ func (s *Service) issue(ctx context.Context, peer boson.Address, recipient, bene
 		return ErrInsufficientFunds
 	}
 
-	cumulativePayout := traffic.retrieveChequeTraffic
-	// increase cumulativePayout by amount
-	cumulativePayout = cumulativePayout.Add(cumulativePayout, balance)
+	// increase cumulativePayout by amount; a new value, never in place: after
+	// initialisation the cheque, chain and traffic totals of a peer can be the same *big.Int
+	cumulativePayout := new(big.Int).Add(traffic.retrieveChequeTraffic, balance)
 	// create and sign the new cheque
 	c := chequePkg.Cheque{
 		Recipient:        recipient,
